@@ -8,6 +8,7 @@
      HZ sig m1[5] m2[5] vtrans depth n[3] origin[3] R e p12[3] w12[3] v12[3]   -> valid pt[3] force[3] pe power
      BK sig mH[5] mB[5] vtrans n[3] pHB[3] w[3] v[3] nverts {vH[3]}*
           -> F[6] pe power nactive {pt[3] f[3] pe power x xdot}*
+     AR nb {p[3]}*nb ncf {b1 b2 pt[3] M[3] F[3]}*   -> body forces (6 per body) net moment[3] net force[3]   (CompliantContactSubsystem's application step)
      MU us ud uv v  -> stribeck   ;  HO us ud uv vt vslip -> hollars_mu *)
 open C37model
 #include "fops.inc"
@@ -72,6 +73,13 @@ let run k (a : float list) =
     let det = List.filter_map (fun vh -> bk_vertex fops sg mh mb vt n phb w v vh) vs in
     pf (float_of_int (List.length det));
     List.iter (fun (((((pt, f), pe), pw), x), xd) -> p3 pt; p3 f; pf pe; pf pw; pf x; pf xd) det
+  | "AR" ->
+    let (nb, a) = hd a in let bp l = let (p, l) = v3 l in ({ b_p = p; b_w = ((0.0, 0.0), 0.0); b_v = ((0.0, 0.0), 0.0) }, l) in
+    let (bodies, a) = rep (ni nb) bp a in let (nc, a) = hd a in
+    let cf l = (match l with b1 :: b2 :: r -> let (pt, r) = v3 r in let (m, r) = v3 r in let (f, r) = v3 r in
+                  ({ cf_b1 = nat_of_int (ni b1); cf_b2 = nat_of_int (ni b2); cf_pt = pt; cf_m = m; cf_f = f }, r) | _ -> failwith "cf") in
+    let (cs, _) = rep (ni nc) cf a in
+    List.iter psv (cc_bodyForces fops bodies cs); let (m, f) = net_wrench fops bodies (cc_bodyForces fops bodies cs) in p3 m; p3 f
   | "MU" -> (match a with [us; ud; uv; v] -> pf (stribeck fops us ud uv v) | _ -> failwith "MU")
   | "HO" -> (match a with [us; ud; uv; vt; vs] -> pf (hollars_mu fops us ud uv vt vs) | _ -> failwith "HO")
   | _ -> print_string "?unknown"
